@@ -180,6 +180,35 @@ def correspondences(tier, rng):
             return [(SOPS[o], [int(v) for v in a]) for o, a in outc]
         return res(go)
     out.append(Corr("specialize_commands", ccases, impl_speccmd))
+    # ---- programToCommands / commandsToProgram on whole programs (width, hints, masks, stray arguments, mask without bytes)
+    from fontTools.cffLib.specializer import programToCommands, commandsToProgram
+    PID = {"rmoveto": 0, "hmoveto": 1, "vmoveto": 2, "hstem": 20, "hstemhm": 21, "vstem": 22, "vstemhm": 23, "cntrmask": 24, "hintmask": 25, "endchar": 30}
+    for i_, o_ in enumerate(OPS): PID.setdefault(o_, i_)
+    def opid(o): return PID.get(o, 40 + (sum(map(ord, o)) % 50))
+    def tok(t): return Raw([1, opid(t)]) if isinstance(t, str) else Raw([2, len(t)] + list(t)) if isinstance(t, bytes) else Raw([0, int(t)])
+    pcases = []
+    for _ in range(N(tier, 800, 10000)):
+        p_ = gen_program(rng)
+        r_ = rng.below(10)
+        if r_ == 0: p_ = p_[:rng.randint(0, len(p_))]                       # cut anywhere: stray arguments, a mask operator without its bytes
+        elif r_ == 1: p_ = p_[:-1] + [rng.randint(-9, 9)]
+        elif r_ == 2: p_ = [rng.randint(0, 900)] + p_
+        pcases.append(p_)
+    def impl_p2c(p_):
+        def go():
+            return [(Opt(opid(o), some=True) if o else Opt(None, some=False), [tok(a) for a in args]) for o, args in programToCommands(list(p_))]
+        r = res(go)
+        return r
+    def cmp_p2c(x, i_, m_):
+        # a mask operator at the very end of the token list: next(it) raises StopIteration (the model says IndexError)
+        if i_ and m_ and i_[0] == 1 and m_[0] == 1: return True
+        return list(i_) == list(m_)
+    def oracle_p2c(p_):
+        try: cs = programToCommands(list(p_))
+        except Exception: return None
+        back = commandsToProgram(cs)
+        return None if back == list(p_) else "commandsToProgram(programToCommands(p)) = %r for p = %r" % (back, p_)
+    out.append(Corr("programToCommands", pcases, impl_p2c, enc=lambda p_: ([tok(t) for t in p_],), compare=cmp_p2c, oracle=oracle_p2c))
     return out
 
 def gen_program(rng, width=True):
